@@ -15,6 +15,8 @@ PROFILES = {
                            "NOSCRIPT", "MASTERDOWN", "EXECABORT", "MISCONF", "NOREPLICAS"]),
     "redirect": dict(clients=2, steps=(4, 12), menu=["get", "set", "mget", "del", "ping"],
                      kinds=["ok", "ok", "moved", "ask", "nil"], slots=["A", "B", "B2", "C"], burst=(1, 3)),
+    "redirunk": dict(clients=2, steps=(4, 12), menu=["get", "set", "mget", "del", "ping"],
+                     kinds=["ok", "ok", "moved", "ask", "movedunk", "nil"], slots=["A", "B", "C"], burst=(1, 3)),
     "bclose": dict(clients=2, steps=(4, 12), menu=["get", "set", "mget", "del", "mset", "ping"],
                    kinds=["ok", "ok", "nil"], slots=["A", "B", "C"], burst=(1, 3), p_bclose=0.18, p_head=0.05),
     "timeout": dict(clients=2, steps=(4, 12), menu=["get", "set", "mget", "del", "ping"],
@@ -23,6 +25,8 @@ PROFILES = {
                   kinds=["ok", "ok", "mix"], slots=["A", "A2", "B", "C", "U"], burst=(1, 3), p_cclose=0.12, unowned=True),
     "gate": dict(clients=2, steps=(5, 14), menu=["get", "get", "set", "mget", "ping"],
                  kinds=["ok"], slots=["A", "B", "C"], burst=(1, 3), stall="n3", p_owed=0.8),
+    "fwdonly": dict(clients=2, steps=(5, 14), menu=["get", "get", "set", "mget", "del", "mset"],
+                    kinds=["ok", "nil", "mix"], slots=["A", "A2", "B", "C"], burst=(1, 3), stall="n3", p_owed=0.5),
     "quit": dict(clients=2, steps=(3, 9), menu=["get", "set", "mget", "ping", "quit"],
                  kinds=["ok"], slots=["A", "B"], burst=(1, 3)),
 }
@@ -69,6 +73,9 @@ def gen_scenario(rng, profile, sid):
             to = rng.choice([x for x in nodes if x != n])
             st["to"] = to
             queued[to] += 1
+        if kind == "movedunk":
+            st["kind"] = rng.choice(["moved", "ask"])
+            st["to"] = "127.0.0.1:1"
         return st
 
     for _ in range(nsteps):
@@ -86,6 +93,8 @@ def gen_scenario(rng, profile, sid):
             elif p.get("p_expire") and rng.random() < p["p_expire"] and sum(pend.values()) > 0:
                 acts = ["expire"]
             a = rng.choice(acts)
+            if a in ("send", "cclose") and len(closed) == len(clients):
+                a = "idle"
             if a == "send":
                 c = rng.choice([x for x in clients if x not in closed])
                 reqs = [gen_request(rng, p) for _ in range(rng.randint(*p["burst"]))]
